@@ -224,6 +224,6 @@ func init() {
 		Rule: "a generated history fills the intended store (1-4 owners per path, shadowed and ruling), then 0-4 drift events change, remove or add running leaves directly in the CONFIG store (as sync would); a fake WatchDeviations stream is registered, the real DeviationMgr runs and the fake clock is advanced past its 30 s ticker. The messages between START and END are compared as a multiset of (reason, intent, path, expected, current) with a deviation model computed from direct dumps of both stores. Non-trivial = at least one expected deviation; distinct = (#expected, max intents per path, #drift events).",
 		Real: append(append([]string{}, realCore...), "pkg/datastore DeviationMgr/runDeviationUpdate/WatchDeviations, pkg/server WatchDeviations"), Stub: append(append([]string{}, stubCore...), "gRPC server stream (fake)"),
 		RequiredProbes: []string{"want-UNHANDLED", "want-NOT_APPLIED", "want-OVERRULED"},
-		QuickSeconds: 30, ThoroughSeconds: 420,
+		QuickSeconds:   30, ThoroughSeconds: 420,
 	})
 }
